@@ -1,19 +1,8 @@
 //@ include prelude/header.rs
 //@ unit U01 handlers/hunk.rs: handle_hunk_line (C01 once/in-order/text, C11 lag, OD, BufInv)
 verus! {
-//@ include prelude/base.rs
-//@ include prelude/std_assumed.rs
-//@ include prelude/render.rs
-//@ include prelude/state.rs
-//@ include prelude/opaque.rs
-//@ shims merge_conflict grep tabs utils::tabs config
-//@ broadcast vax::vax_group rax::rax_group r2x_group
+//@ include prelude/sm_env.rs
 
-//@ type src/config.rs Config keep=line_buffer_size,tab_cfg
-//@ type src/paint.rs Painter keep=minus_lines,plus_lines,writer,output_buffer
-//@ type src/delta.rs StateMachine keep=line,raw_line,state,painter,config,minus_line_counter
-//@ include prelude/render2.rs
-//@ include prelude/sm_inv.rs
 
 impl DiffType {
     //@ stub src/delta.rs DiffType::n_parents spec=delta.n_parents
